@@ -233,6 +233,14 @@ def enum_shard(st, shard, nshards, payload):
                               cls='n%d-%s' % (n, ','.join(cls[gi])))
 
 
+SCOPE_LEGEND = {
+    '1': 'LTL path formulas with <= 1 operator (100)', '2': 'LTL path formulas with <= 2 operators (4324)',
+    'tt': 'tt (90 formulas with two nested temporal operators)', 'k3': 'k3 (every 97th path formula with exactly 3 operators)',
+    'rep': 'rep (360 formulas with a temporal subformula repeated under both polarities)',
+    'pairs': 'pairs (910 formulas x op y joining two different one-operator temporal formulas, incl. constant operands)',
+    'nary': 'nary (868 formulas with 3- and 4-ary and/or of temporal operands)',
+    'ctx': 'ctx (39840 formulas: every context of <= 2 operators over {p,q,SLOT} with SLOT at least twice x every 1-operator path formula for SLOT)'}
+
 def run(ctx):
     from hypothesis import strategies as hs
     ctx.rule = ('S(n) = every total Kripke structure with n states over {p,q}; LTL formulas A g '
@@ -251,25 +259,12 @@ def run(ctx):
                   (2, 'k3', 1), (3, 'k3', 97), (4, 'k3', 200003), (1, 'rep', 1), (2, 'rep', 3), (3, 'rep', 401),
                   (1, 'pairs', 1), (2, 'pairs', 4), (3, 'pairs', 1201), (1, 'nary', 1), (2, 'nary', 4), (3, 'nary', 1201),
                   (1, 'ctx', 1), (2, 'ctx/7', 3), (3, 'ctx/97', 1801)]
-        ctx.scopes = ['S(1)+S(2) x LTL path k<=2 (4324 formulas)', 'S(3) x k<=1 (100 formulas)',
-                      'every 4001st of S(4) x k<=1', 'every 5th of S(3) x tt (90 formulas with two nested temporal operators)',
-                      'every 211th of S(3) x k<=2', 'every 20011th of S(4) x tt',
-                      'S(2), every 97th of S(3), every 200003rd of S(4) x k3 (every 97th path formula with exactly 3 operators)',
-                      'S(1), every 3rd of S(2), every 401st of S(3) x rep (360 formulas with a temporal subformula repeated under both polarities)',
-                      'the same structure samples (sparser) x pairs (910 formulas x op y joining two different one-operator temporal formulas, incl. constant operands) and x nary (868 formulas with 3- and 4-ary and/or of temporal operands)',
-                      'S(1) x ctx (39840 formulas: every context of <= 2 operators over {p,q,SLOT} with SLOT at least twice x every 1-operator path formula for SLOT), every 3rd of S(2) x every 7th of ctx, every 1801st of S(3) x every 97th of ctx']
     else:
         scopes = [(1, 2, 1), (2, 1, 1), (2, 2, 12), (3, 1, 24), (4, 1, 60013), (3, 'tt', 211), (2, 'k3', 16),
                   (3, 'k3', 1801), (1, 'rep/2', 1), (2, 'rep/2', 24), (3, 'rep/2', 5501),
                   (1, 'pairs/4', 2), (2, 'pairs/4', 72), (3, 'pairs/4', 11003), (1, 'nary/4', 2), (2, 'nary/4', 72), (3, 'nary/4', 11003),
                   (1, 'ctx/4', 1), (2, 'ctx/97', 12)]
-        ctx.scopes = ['S(1) x k<=2', 'S(2) x k<=1', 'every 12th of S(2) x k<=2',
-                      'every 24th of S(3) x k<=1', 'every 60013th of S(4) x k<=1',
-                      'every 211th of S(3) x tt (two nested temporal operators)',
-                      'every 16th of S(2) and every 1801st of S(3) x k3 (every 97th path formula with exactly 3 operators)',
-                      'S(1), every 24th of S(2), every 5501st of S(3) x rep (360 formulas with a temporal subformula repeated under both polarities)',
-                      'the same structure samples (sparser) x pairs (910 formulas x op y joining two different one-operator temporal formulas, incl. constant operands) and x nary (868 formulas with 3- and 4-ary and/or of temporal operands)',
-                      'S(1) x every 4th of ctx (39840 formulas: every context of <= 2 operators over {p,q,SLOT} with SLOT at least twice x every 1-operator path formula for SLOT), every 12th of S(2) x every 97th of ctx']
+    ctx.scopes = core.describe_scopes(scopes, SCOPE_LEGEND)
     ctx.exhaustive = True
     ctx.assumptions = ['reference semantics vp/ref.py (R-STAR certified by R-PATH) is the trusted base',
                        'formulas are bounded to <= 3 temporal operators because the tableau under '
